@@ -9,14 +9,24 @@
      work item is allowed (the re-entrancy guard returns at once): it is what makes the drain's exit wakeup necessary;
    phase 2, dispatch_main(): _dispatch_queue_cleanup2, after which the lane component of the state satisfies the
      invariant of the ordinary serial lane (SLane_proofs.Inv) and every lane program point is stepped by SLane.gstep
-     itself, so SLane's theorems apply without re-proof.
+     itself.  Only that INVARIANT is transferred (the lane component is not shown to be reachable in SLane's own
+     transition system); instantiated from it here: C02_mainq_lane_not_stranded and the phase-2 halves of
+     C02_mainq_exclusive / C02_mainq_fifo.
    Item ids are issued by the tail exchange inside the submission call (0,1,2,... in exchange order): "A's submission
    returned before B's began, or one thread submitted A then B" implies id A < id B.
    Scope (client contract, lib/props/c02_mainq.py ASSUMPTIONS): dispatch_main() is called when no synchronous call
    onto the main queue is in flight and none is started afterwards — hence `_partial` on the hand-over theorem: a
    synchronous context still queued at that moment would be handed the drain lock by cleanup2 / a worker (the
-   ordinary-lane waiter paths of Model/SyncWait.v), which this model does not contain; work items do not submit to the
-   main queue from inside their own callout; no suspension / retargeting of the main queue. *)
+   ordinary-lane waiter paths of Model/SyncWait.v), which this model does not contain; no suspension / retargeting of
+   the main queue.
+   Submission from inside a callout: a work item running on the bound thread may dispatch_async_f onto the main queue
+   (mbegin MAsync at MB_incall; continuation KCall; `in_callout` covers those program points), every theorem below
+   holds over such runs, C02_mainq_nonvacuous contains one (the last item of a drain pass resubmits).  MODEL SCOPE, not
+   an API contract: no submission from inside a callout on a worker after dispatch_main(), no synchronous call from
+   inside a callout, no dispatch_sync / dispatch_async_and_wait onto the main queue at all after dispatch_main()
+   (MSync is disabled once mainstarted): the theorems are silent on those clients; the stress client runs the first
+   and (scenario phase2_sync) the last on the real library, judged by the oracle (and the trace automaton for the
+   first). *)
 From Coq Require Import ZArith Bool List.
 From Verif Require Import Word Conc Gen_consts Gen_fields Gen_dqstate Gen_mainq SLane SLane_proofs MainQ MainQT MainQ_inv MainQ_proofs MainQ_extra
   MainQT_sites.
@@ -56,16 +66,27 @@ Theorem C02_mainq_kth_started_is_k : forall m prio rb, valid_tid m -> 0 <= rb < 
 Proof. exact mainq_kth_started_is_k. Qed.
 Print Assumptions C02_mainq_kth_started_is_k.
 
-(* not stranded, thread-bound phase: the bound thread is back in its run loop and the list is not empty => the eventfd
-   counter is positive or some thread is at a program point from which it writes it (it still owes its poke).  The
-   race of the drain's exit with a concurrent push is closed by the exit wakeup dx_wakeup(dq, 0, 0) of
-   _dispatch_main_queue_drain: it probes dq_items_tail again and pokes the handle when items arrived. *)
+(* not stranded, thread-bound phase.  NOTE THE HYPOTHESIS `mpcs s m = MIdle`: the bound thread is back in its run loop
+   (outside the callback).  Then a non-empty list => the eventfd counter is positive or some thread is at a program point
+   from which it writes it (it still owes its poke).  The race of the drain's exit with a concurrent push is closed by
+   the exit wakeup dx_wakeup(dq, 0, 0) of _dispatch_main_queue_drain: it probes dq_items_tail again and pokes the handle
+   when items arrived.  (Without the hypothesis the statement is false: a work item that services the handle itself
+   leaves list non-empty, counter 0, no poker, bound thread in MB_incall: see the next theorem.) *)
 Theorem C02_mainq_not_stranded : forall m prio rb, valid_tid m -> 0 <= rb < 2 -> forall s,
   mreach m prio rb s ->
   mpcs s m = MIdle -> lst (lane s) <> [] -> 0 < evfd s \/ exists t, poker s t.
 Proof. exact mainq_not_stranded. Qed.
 Print Assumptions C02_mainq_not_stranded.
 
+(* ... at any program point of the bound thread before dispatch_main(): the third alternative, c_see (mcl s) = true, is
+   "the bound thread is inside _dispatch_main_queue_drain and has not yet returned from its exit wakeup"
+   (Proofs/MainQ_inv.v mclass: MB_tail .. MB_loop, and the push / wakeup program points of a work item that submits to
+   the main queue from inside its callout): the pending wake-up is then the drain's own exit wakeup *)
+Theorem C02_mainq_not_stranded_any : forall m prio rb, valid_tid m -> 0 <= rb < 2 -> forall s,
+  mreach m prio rb s -> c_lane (mcl s) = false -> c_clean (mcl s) = false -> lst (lane s) <> [] ->
+  0 < evfd s \/ c_see (mcl s) = true \/ exists t, poker s t.
+Proof. exact mainq_not_stranded_any. Qed.
+Print Assumptions C02_mainq_not_stranded_any.
 
 (* the bound thread waiting for the head link / a successor link of its snapshot is never stuck: the enqueuer that owes
    the link is at its link program point and can take its step *)
@@ -122,7 +143,8 @@ Theorem C02_mainq_sync_wakeup_not_lost : forall m prio rb s t,
   waiter_of s i = t /\
   (w_sigd (ws s t) = false ->
      In i (ids (lst (lane s))) \/ In i (ids (snap s)) \/
-     (exists w more, mpcs s (mtid s) = MB_run i w more \/ mpcs s (mtid s) = MB_incall i w more) \/
+     (exists w more, mpcs s (mtid s) = MB_run i w more \/ mpcs s (mtid s) = MB_incall i w more \/
+                     kont (mpcs s (mtid s)) = Some (KCall i w more)) \/
      (exists more, mpcs s (mtid s) = MB_sig t more)) /\
   (w_sigd (ws s t) = true -> mpcs s t = MS_sleep -> w_wok (ws s t) = true \/ exists more, mpcs s (mtid s) = MB_fwake t more).
 Proof. exact mainq_sync_wakeup_not_lost. Qed.
@@ -145,7 +167,8 @@ Theorem C02_mainq_handoff_partial : forall m prio rb, valid_tid m -> 0 <= rb < 2
 Proof. exact mainq_handoff. Qed.
 Print Assumptions C02_mainq_handoff_partial.
 
-(* from then on every ordinary-lane step is literally a step of Model/SLane.v *)
+(* from then on every ordinary-lane step is literally a step of Model/SLane.v (this and SLane_proofs.Inv (lane s) of
+   C02_mainq_handoff_partial are what is transferred; the next theorem is read off that invariant, field g_nostrand) *)
 Theorem C02_mainq_lane_steps_are_slane : forall s t s',
   mpcs s t = MIdle -> mstep s t = Some s' -> gstep (lane s) t = Some (lane s') /\ mpcs s' = mpcs s.
 Proof. exact mainq_lane_steps_are_slane. Qed.
@@ -177,12 +200,20 @@ Proof.
 Qed.
 Print Assumptions C02_mainq_sites_match.
 
-(* non-vacuity: 2 pushers + 1 synchronous caller parked, the bound thread drains, dispatch_main(), a worker drains *)
+(* non-vacuity: 2 pushers + 1 synchronous caller parked, the bound thread drains, dispatch_main(), a worker drains; and a
+   work item that dispatch_async_f's onto the main queue from inside its callout as the last item of a drain pass: the
+   bound thread pokes its own handle, the exit wakeup pokes again, the next service pass runs the new item *)
 Example C02_mainq_nonvacuous :
   (exists s, mrun (minit 100 0 1) demo_phase1 = Some s /\ mreach 100 0 1 s /\
              mpcs s 7 = MS_sleep /\ map e_id (lst (lane s)) = [0; 1; 2] /\ waiter_of s 2 = 7 /\ evfd s = 2 /\ mpcs s 100 = MIdle) /\
   (exists s, mrun (minit 100 0 1) demo_acts = Some s /\ mreach 100 0 1 s /\
              quiescent_dec s [5; 6; 7; 8] = true /\ mpcs s 100 = MC_gone /\ started (lane s) = [3; 2; 1; 0] /\
              mainran s = [2; 1; 0] /\ finished s = [2; 1; 0] /\ lst (lane s) = [] /\ rootq (lane s) = 0 /\ nextid (lane s) = 4 /\
-             bound s = false /\ hopen s = false /\ syncers s = [] /\ st (lane s) = 9005068950962176).
-Proof. exact (conj demo_parked demo_final). Qed.
+             bound s = false /\ hopen s = false /\ syncers s = [] /\ st (lane s) = 9005068950962176) /\
+  (exists s, mrun (minit 100 0 1) demo_resub1 = Some s /\ mreach 100 0 1 s /\
+             mpcs s 100 = MB_incall 0 0 false /\ running (lane s) = Some (100, 0) /\ map e_id (lst (lane s)) = [1] /\
+             snap s = [] /\ evfd s = 1) /\
+  (exists s, mrun (minit 100 0 1) demo_resub2 = Some s /\ mreach 100 0 1 s /\
+             quiescent_dec s [5] = true /\ mpcs s 100 = MIdle /\ started (lane s) = [1; 0] /\ mainran s = [1; 0] /\
+             finished s = [1; 0] /\ lst (lane s) = [] /\ evfd s = 0 /\ bound s = true).
+Proof. exact (conj demo_parked (conj demo_final demo_resubmit)). Qed.
